@@ -273,11 +273,16 @@ impl C18 {
 
     /// a whole building: typed elements carry the written values (and documented defaults)
     fn typed(&self, rng: &mut Rng, case: &Case, obs: &mut Obs) {
-        let b = gen_building(rng, &BuildCfg::full());
+        // half of the buildings in legacy form: attributes with a documented default left out
+        let legacy = case.index % 2 == 1;
+        let b = gen_building(rng, &BuildCfg { legacy_absent: legacy, ..BuildCfg::full() });
         let blocks = b.blocks();
         let lay = if rng.chance(0.3) { Layout::hulc() } else { Layout::random(rng) };
         let text = print_blocks(rng, &blocks, &lay);
         obs.eval();
+        for (_, a) in &b.omit {
+            obs.count(&format!("legacy-absent:{}", a));
+        }
         let d = match guard(|| Data::new(&text)) {
             Ok(Ok(d)) => d,
             Ok(Err(e)) => {
@@ -324,7 +329,7 @@ impl C18 {
                     ("space.type", ds.stype == s.stype),
                     ("space.inside_envelope", ds.insidete == want_inside),
                     ("space.multiplier", close32(ds.multiplier, s.multiplier) && close32(ds.floor_multiplier, f.multiplier)),
-                    ("space.conditions", ds.spaceconds == s.conds && ds.systemconds == s.sysconds),
+                    ("space.conditions(SPACE-TYPE where absent)", ds.spaceconds == s.conds && ds.systemconds == s.sysconds && ds.spacetype == s.spacetype),
                     ("space.outline", ds.polygon.0.len() == s.outline.len() && ds.polygon.0.iter().zip(s.outline.iter()).all(|(p, q)| close32(p.x, q.0) && close32(p.y, q.1))),
                 ];
                 for (name, ok) in checks {
@@ -891,6 +896,9 @@ impl Property for C18 {
         }
         v.push(("attributes_compared".into(), 50_000));
         v.push(("typed_spaces".into(), 500));
+        for a in ["SPACE-CONDITIONS", "SYSTEM-CONDITIONS", "ABSORPTANCE", "OVERHANG-A", "LEFT-FIN-A", "RIGHT-FIN-A", "COEFF"] {
+            v.push((format!("legacy-absent:{}", a), 30));
+        }
         v.push(("typed_walls".into(), 3000));
         v.push(("typed_windows".into(), 200));
         v.push(("typed_schedules".into(), 1000));
